@@ -230,7 +230,7 @@ def guard_checker(db, lay):
             MS = 'const:' + LAYOUT_TRAIT + '::MASK_SIZE'
             r = find(STARK_COMMIT, lambda g: g.rel == 'EQ' and g.covers == 'all' and 'len(a3.oods_values)' in (g.lhs | g.rhs) and MS in (g.lhs | g.rhs), b)
         elif name == 'table-len':
-            r = find(TABLE_DECOMMIT, lambda g: g.rel == 'EQ' and g.covers == 'all' and 'len(a3.values)' in (g.lhs | g.rhs) and 'len(a2)' in (g.lhs | g.rhs))
+            r = common.table_length_guard(db)
         elif name == 'fri-values-len':
             r = find(FRI_VERIFY, lambda g: g.rel == 'EQ' and g.covers == 'all' and {'len(a1)', 'len(a3.values)'} <= (g.lhs | g.rhs))
         elif name == 'max-steps':
